@@ -15,7 +15,16 @@ LEVEL_TEXT = ("Partial by construction: CPython's pickle/copy do the copying and
 LEVEL_NOTE = ("Trusted: CPython's pickle/copy/__reduce_ex__ machinery and the pickle byte stream (not modelled); Lean kernel, standard "
               "axioms; the mirror lean/Anytree/Model/Attr.lean. Protocols 0-1 are skipped for __slots__ classes (a restriction of "
               "Python itself).")
-THEOREMS = []
+THEOREMS = [
+    ("Anytree.Props.C19.lookup_guarded_terminates", "partial"),
+    ("Anytree.Props.C19.lookup_restored", "partial"),
+    ("Anytree.Props.C19.reach_sound", "partial"),
+    ("Anytree.Props.C19.reach_nodup", "partial"),
+    ("Anytree.Props.C19.reach_complete", "partial"),
+    ("Anytree.Props.C19.mem_reach_iff", "partial"),
+    ("Anytree.Props.C19.same_tree_of_conn", "partial"),
+    ("Anytree.Props.C19.lookup_unguarded_diverges", "witness"),
+]
 NOT_COVERED = ["the copy itself (isomorphism, disjointness, independence) is performed by CPython and is established by the "
                "correspondence run over every entry node and protocol, not by a theorem"]
 PREDICATE_SPEC = True
